@@ -171,6 +171,19 @@ func main() {
 	flag.Parse()
 	r := gen.New(*seed)
 	t := gen.NewTrace(*out)
+	// constants the model hard-codes, read from the real package (regenerated tie)
+	t.Line("const", true, "const precision => %d", sdk.Precision)
+	t.Line("const", true, "const decbits => %d", sdk.DecimalPrecisionBits)
+	t.Line("const", true, "const one => %s", sdk.OneDec().BigInt().String())
+	t.Line("const", true, "const smallest => %s", sdk.SmallestDec().BigInt().String())
+	func() {
+		defer func() { recover() }()
+		// the largest BigInt the package accepts: 2^255-1 passes, 2^255 panics
+		max := new(big.Int).Sub(new(big.Int).Lsh(big.NewInt(1), 255), big.NewInt(1))
+		ok1 := try(func() string { return sdk.NewIntFromBigInt(max).String() }) != "PANIC"
+		ok2 := try(func() string { return sdk.NewIntFromBigInt(new(big.Int).Add(max, big.NewInt(1))).String() }) == "PANIC"
+		t.Line("const", true, "const maxbits255 => %v", ok1 && ok2)
+	}()
 	for i := 0; i < *n; i++ {
 		mal := r.Chance(1, 10)
 		switch k := r.Intn(16); {
